@@ -287,7 +287,10 @@ def good_day_grid(rep):
         _good_day_judge(found, lat, 10.0, 1.0, method, dates, conv, idx)
     good_day_boundary(found)
     for key, items in found.items():
-        rep.violation(key, items[0][0] + " (+%d more)" % (len(items) - 1), [x[1] for x in items[:5]], items[0][2])
+        if key == "hidden-state":
+            rep.violation(key, items[0][0] + " (+%d more)" % (len(items) - 1), items[0][1], items[0][2])
+        else:
+            rep.violation(key, items[0][0] + " (+%d more)" % (len(items) - 1), [x[1] for x in items[:5]], items[0][2])
     return bool(found)
 
 
@@ -324,6 +327,21 @@ def good_day_boundary(found):
             conv = replay.run([api_case(lat, lon, gmt, d, method, "None") for d in dates])
             idx = list(range(W - 12, W + 13))
             _good_day_judge(found, lat, lon, gmt, method, dates, conv, idx, tag=" [%g deg inside the latitude where %s stops being a good day]" % (delta, G))
+            # history: the same search after one for the same place under another GMT offset (validity of a date depends on the
+            # Julian-day instant, so at this latitude the set of good days differs between the offsets)
+            for pol in GOOD:
+                for k in (W + 3, W - 3):
+                    p = api_case(lat, lon, gmt, dates[k], method, pol)
+                    for g2 in (gmt + 1.0, gmt - 1.0, gmt + 0.5):
+                        if not -12.0 <= g2 <= 12.0:
+                            continue
+                        q = api_case(lat, lon, g2, dates[k], method, pol)
+                        fresh = replay.run([p])[0]
+                        after = replay.run([q, p])[1]
+                        if fresh.get("times") != after.get("times"):
+                            found.setdefault("hidden-state", []).append((
+                                "%s at lat %s on %s (gmt %s) returns a different result after a call for the same place with gmt %s" % (pol, lat, dates[k], gmt, g2),
+                                [q, p], {"alone": fresh, "after_other_gmt": after}))
 
 
 def frame_grid(rep, policies=None, methods=("Egyptian", "Mwl", "Isna", "UmmAlQurra")):
